@@ -1,11 +1,13 @@
 \* U1, generic universe (thorough), as-intended discipline
 CONSTANTS
   DEV_CredUpsertShadowedErr = FALSE
+  DEV_PgCredUpsertShadowedErr = FALSE
   DEV_UsersCreateCompensates = FALSE
   DEV_TopicsCreateTwoTx = FALSE
   DEV_DeleteListThreeTx = FALSE
   Universe = "generic"
   MaxStmts = 4
+  Dialect = "mysql"
   GenShadow = FALSE
 SPECIFICATION Spec
 INVARIANTS InvAllOrNothing InvNoOpenTxAtReturn InvFailureReported InvNoWriteOutsideTx InvRunAgrees InvNeverStuck
